@@ -434,25 +434,26 @@ def analytic_case(ctx, qp, rng, gi):
             if not tab:
                 run(qp.state(), "state()", psi, "state", TOL32, extra_mech=state_mech)
             else:
-                tableau_check(ctx, qp, cs, dev, ops, psi, order, nontriv, base_fp, rng, layout_state)
+                tableau_check(ctx, qp, cs, dev, ops, psi, order, nontriv, base_fp, rng, layout_state,
+                              fallback_mech="stateprep:label-permutation" if prep_perm else ("untouched-wires:no-qubits-allocated" if empty_stim else None))
         elif p == 8 and tab is False and rng.random() < 0.5:
             # same circuit on a tableau=True device must give the same probabilities (two code paths of _measure_probability)
             pass
 
 
-def tableau_check(ctx, qp, cs, dev, ops, psi, order, nontriv, base_fp, rng, layout_state=None):
+def tableau_check(ctx, qp, cs, dev, ops, psi, order, nontriv, base_fp, rng, layout_state=None, fallback_mech=None):
     N = len(order)
     ctx.case(fingerprint(base_fp, "tableau"), nontrivial=nontriv, cls="analytic/tableau")
     try:
         t = np.asarray(execute(qp, dev, ops, qp.state()))
     except Exception as e:  # noqa: BLE001
         ctx.ev("tableau.valid")
-        mech = "gate:SX:stim-name" if "Gate not found: 'SX" in str(e) else f"raises:tableau:{type(e).__name__}"
+        mech = "gate:SX:stim-name" if "Gate not found: 'SX" in str(e) else (fallback_mech or f"raises:tableau:{type(e).__name__}")
         cs.viol("tableau.valid", f"state() with tableau=True raised {type(e).__name__}: {str(e)[:200]}", mech)
         return
     ctx.ev("tableau.valid")
     if t.shape != (2 * N, 2 * N + 1) or not np.all(np.isin(t, [0, 1])):
-        cs.viol("tableau.valid", f"tableau shape {t.shape} / entries not binary for {N} wires", "tableau:shape", t)
+        cs.viol("tableau.valid", f"tableau shape {t.shape} / entries not binary for {N} wires", fallback_mech or "tableau:shape", t)
         return
     x, z, r = t[:, :N], t[:, N:2 * N], t[:, 2 * N]
 
@@ -470,7 +471,7 @@ def tableau_check(ctx, qp, cs, dev, ops, psi, order, nontriv, base_fp, rng, layo
             appearance = psi_app is not None and lay != order and all(np.linalg.norm(pauli_of(N + i) @ psi_app - psi_app) <= 1e-7 * math.sqrt(len(psi)) for i in range(N))
             cs.viol("tableau.valid", f"stabilizer row {j} of the returned tableau does not stabilize the exact state on the device wire order {order}"
                                      + (f" (it does in the tape's own wire layout {lay})" if appearance else ""),
-                    "state:wire-order:tape-layout" if appearance else "tableau:stabilizer", t)
+                    "state:wire-order:tape-layout" if appearance else (fallback_mech or "tableau:stabilizer"), t)
             return
     # symplectic relations: destabilizer_i anticommutes with stabilizer_i only
     def sp(a, b):
